@@ -622,3 +622,39 @@ Proof.
   rewrite Forall_forall in *. intros [[fs acc] r] Hin.
   specialize (Hk _ Hin). specialize (Hf _ Hin). cbn in *. destruct Hk as (_ & H1 & H2 & _). auto.
 Qed.
+
+(* ---- the admission rule in terms of the bytes that are actually fragmented ---- *)
+Lemma nframes_pos limit ctl n : 1 <= nframes limit ctl n.
+Proof.
+  unfold nframes. destruct ctl; auto. destruct limit as [|l]; auto. destruct n as [|n]; auto.
+  apply Nat.div_le_lower_bound; lia.
+Qed.
+
+Lemma msg_frames_length mid n : length (msg_frames mid n) = n.
+Proof. unfold msg_frames. now rewrite map_length, seq_length. Qed.
+
+(* a WriteMessage on an open connection in queued mode with bound maxq > 0: with k = the number of fragments of the
+   bytes that go out (the DEFLATED length when compression applies) it is refused as a whole - nothing queued, nothing
+   accepted, the mutex free again - exactly when len(queue) + k > maxq; otherwise it owns the mutex with all k frames
+   to do (and by [Room] every one of them will be accepted) *)
+Theorem admission maxq s limit mid ctl raw z :
+  holder s = None -> closed s = false -> 0 < maxq ->
+  let k := nframes limit ctl (wire_len raw z) in
+  let fs := msg_frames mid k in
+  let s' := step Queued maxq s (begin_msg limit mid ctl raw z) in
+  length fs = k /\
+  (maxq < length (slots s) + k ->
+     calls s' = calls s ++ [(fs, [], RFull)] /\ slots s' = slots s /\ dr s' = dr s /\ holder s' = None /\ accepted s' = accepted s) /\
+  (length (slots s) + k <= maxq ->
+     holder s' = Some {| cfs := fs; cacc := []; crest := fs |} /\ calls s' = calls s /\ slots s' = slots s).
+Proof.
+  intros Hh Hc Hq k fs s'. split; [apply msg_frames_length|].
+  assert (Hk : 1 <= k) by apply nframes_pos.
+  assert (Hl : length fs = k) by apply msg_frames_length.
+  unfold s', begin_msg. fold k. fold fs. cbn [step]. rewrite Hh, Hc.
+  destruct fs as [|f fs'] eqn:Ef; [cbn in Hl; lia|].
+  unfold no_room. destruct maxq as [|q]; [lia|]. rewrite Hl.
+  split; intros H.
+  - apply Nat.ltb_lt in H. rewrite H. unfold accepted; cbn. rewrite Hh, concat_map_snoc. cbn. now rewrite !app_nil_r.
+  - assert (E : (S q <? length (slots s) + k) = false) by (apply Nat.ltb_ge; lia). rewrite E. cbn. auto.
+Qed.
